@@ -1630,8 +1630,29 @@ impl HnswBackend {
     }
 
     fn file_id() -> u64 {
+        // Microsecond timestamps alone are not unique: two snapshots started in the same
+        // microsecond (an automatic one and a manual one) got the same file name, the second
+        // save replaced the first file, and the MANIFEST could end up publishing the file with
+        // the other snapshot's WAL sequence number. Ids handed out by one process are therefore
+        // made strictly increasing.
+        static LAST_FILE_ID: AtomicU64 = AtomicU64::new(0);
+        let unique = |candidate: u64| -> u64 {
+            let mut previous = LAST_FILE_ID.load(Ordering::SeqCst);
+            loop {
+                let next = candidate.max(previous.saturating_add(1));
+                match LAST_FILE_ID.compare_exchange(
+                    previous,
+                    next,
+                    Ordering::SeqCst,
+                    Ordering::SeqCst,
+                ) {
+                    Ok(_) => return next,
+                    Err(actual) => previous = actual,
+                }
+            }
+        };
         match SystemTime::now().duration_since(UNIX_EPOCH) {
-            Ok(duration) => u64::try_from(duration.as_micros()).unwrap_or(u64::MAX),
+            Ok(duration) => unique(u64::try_from(duration.as_micros()).unwrap_or(u64::MAX)),
             Err(error) => {
                 let fallback = next_fallback_wal_file_id();
                 warn!(
